@@ -114,6 +114,19 @@ type rawClient struct {
 // what it receives meanwhile is reported when it is at a packet boundary again.
 func (c *rawClient) mid() bool { return len(c.pend) > 0 }
 
+// tornDown: the broker's stop() of this connection has finished
+func (c *rawClient) tornDown() bool {
+	if c.stopped == nil {
+		return false
+	}
+	select {
+	case <-c.stopped:
+		return true
+	default:
+		return false
+	}
+}
+
 func newRawClient(id int, conn net.Conn) *rawClient {
 	c := &rawClient{id: id, conn: conn}
 	c.cond = sync.NewCond(&c.mu)
@@ -394,7 +407,13 @@ func (b *brokerCore) collectInto(groups map[int][]string, firstID int) {
 	for _, id := range order {
 		c := b.clients[id]
 		if c.mid() {
-			continue
+			// a mid-packet connection is looked at again when it is at a packet boundary - unless the
+			// broker has torn it down meanwhile (a CONNECT with its client identifier, MQTT-3.1.4-2)
+			if !c.tornDown() {
+				continue
+			}
+			c.pend = nil
+			c.waitUntil(func() bool { return c.eof }, brokerWait)
 		}
 		ok := b.barrier(c)
 		items := c.take()
